@@ -479,8 +479,13 @@ func randomCase(c *core.Ctx, r *rand.Rand, i int) {
 	default:
 		switch r.Intn(5) {
 		case 4:
-			c.Branch("stream/shard-fixed-offset-zone")
-			zoneShardCase(c, r)
+			if r.Intn(3) == 0 {
+				c.Branch("stream/shard-daylight-saving-zone")
+				dstShardCase(c, r)
+			} else {
+				c.Branch("stream/shard-fixed-offset-zone")
+				zoneShardCase(c, r)
+			}
 		case 0:
 			c.Branch("stream/shard-concurrent-writers")
 			gocCase(c, r)
@@ -1010,6 +1015,11 @@ func dstPass(c *core.Ctx) {
 			parts := []string{fmt.Sprint(off0)}
 			for _, tr := range trs {
 				parts = append(parts, fmt.Sprint(tr[0]), fmt.Sprint(tr[1]))
+			}
+			if year <= 2024 {
+				// historical years: the zone data the Lean table (Model/C13DstZones.lean, proved to satisfy
+				// the local-midnight contract) was taken from must be what the tz database says today
+				c.Op(fmt.Sprintf("dstzone %s@%d", zn, year), strings.Join(parts, " "))
 			}
 			time.Local = loc
 			zoneTag, zoneTrs = "dst:"+zn, strings.Join(parts, " ")
